@@ -6,7 +6,7 @@ const { canonValue, diff, diffClass, stable } = require('../lib/canon');
 const E = require('../lib/espace');
 
 // spellings: [source name, runtime name (prefix removed, first letter lower-cased)]
-const NAMES = { 'v-foo': 'foo', vFoo: 'foo', 'v-foo-bar': 'foo-bar', vFooBar: 'fooBar', 'v-show': '@vShow', vShow: '@vShow' };
+const NAMES = { 'v-visible': 'visible', vValue: 'value', 'v-foo': 'foo', vFoo: 'foo', 'v-foo-bar': 'foo-bar', vFooBar: 'fooBar', 'v-show': '@vShow', vShow: '@vShow' };
 const MODS = { none: [], a: ['a'], ab: ['a', 'b'], hy: ['a-b'] };
 // value shapes: src, value(env), arg(env)|undefined, mods|undefined ; abstainValue for the value-less form
 const SHAPES = {
